@@ -7,7 +7,7 @@ c = collections.Counter((o['status']) for o in d.get('obligations', []))
 print(dict(c), 'functions', [(f['target'].split('::')[1], f.get('paths')) for f in d.get('functions', [])], d.get('info'))
 seen = set()
 for o in d.get('obligations', []):
-    if o['status'] in ('proved', 'reachable'): continue
+    if o['status'] in ('proved', 'reachable', 'infeasible'): continue
     if o['name'] in seen and '-a' not in sys.argv: continue
     seen.add(o['name'])
     print(' ', o['status'], o['solver'], o['name'])
